@@ -11,17 +11,16 @@ NOTE = ("Trusted: Coq 8.16.1 kernel (vm_compute used, native_compute not); no ax
         "extraction (ExtrOcamlBasic only) + 40-line OCaml driver; the differential harness. Libraries (cbor2, intelhex, "
         "hashlib, cryptography, uuid, struct) are modelled and compared, not verified.")
 
-CLAIMS = {
-    "C10": dict(
-        text="Theorems (Props/C10.v) about the Gallina model REGENERATED on every run from cmd_cache_create.py by the PyG "
-             "translator: padding_shape, cache_decodes (for every eb>0 and every accepted slot list the file decodes, with the proved "
-             "CBOR decoder, to one indefinite map = supplied pairs in order + zero padding entries, 0x5A lengths, length-1 multiple "
-             "of eb), slots_aligned, merge_preserves, accepted_uris_distinct, empty_uri_rejected — unbounded in sizes and slot "
-             "counts. The extracted model is compared with the implementation (library, main(), CLI) and an independent "
-             "byte-offset oracle runs on the implementation; a broken proof/correspondence triggers a bounded-exhaustive search "
-             "for a failing input.",
-        design="§6 C10", technique="Coq proof over PyG-translated model + differential correspondence"),
-}
+def load_claims():
+    """One JSON file per claimed property in vlib/claims/: {text, design, technique[, note]}."""
+    import glob
+    claims = {}
+    for p in sorted(glob.glob(os.path.join(HERE, "claims", "*.json"))):
+        claims[os.path.basename(p)[:-5]] = json.load(open(p))
+    return claims
+
+
+CLAIMS = load_claims()
 
 PENDING_REASON = "check not built yet in this snapshot (work in progress; see DESIGN.md §9) — no claim is made"
 
